@@ -1024,6 +1024,8 @@ Section Statements2D.
        cellv (nth (S i) grids d) row col = cellv (nth i grids d) row col) /\
     (forall i row col, i < n -> row < R -> col < C -> ~ In (row, col) o ->
        cellv (nth (S i) grids d) row col = cellv (nth i grids d) row col) /\
+    snd (a_inner (fst res)) =
+      calls_of (nat * nat) nbhd2 grid (nbof2 r ty) (map (fun i => nth (i mod length o) o (0, 0)) (seq 0 n)) grids 1 /\
     length (snd (a_inner (fst res))) = n.
   Proof.
     intros n o s0 g d HL Hnd Hin Hg res grids. unfold async_init in (value of res) |- *.
@@ -1033,9 +1035,15 @@ Section Statements2D.
               cellv (nth (S i) grids d) row col = cellv (nth i grids d) row col).
     { intros i row col Hi Hrow Hcol Hne. apply (proj2 (Hfr i Hi)); try assumption.
       rewrite trace_cyclic by lia. exact Hne. }
-    split; [exact Hrun|]. split; [exact Hframe|]. split.
+    assert (Htr : sched_trace (nat * nat) (0, 0) sh n false o 0 0 = map (fun i => nth (i mod length o) o (0, 0)) (seq 0 n)).
+    { apply nth_ext with (d := (0, 0)) (d' := (0, 0)).
+      - rewrite trace_length, map_length, seq_length. reflexivity.
+      - intros i Hi. rewrite trace_length in Hi. rewrite trace_cyclic by lia.
+        rewrite (nth_map_seq0 (fun i => nth (i mod length o) o (0, 0))) by exact Hi. reflexivity. }
+    split; [exact Hrun|]. split; [exact Hframe|]. split; [|split].
     - intros i row col Hi Hrow Hcol Hno. apply Hframe; try assumption. intros E. apply Hno. rewrite E. apply nth_In.
       apply Nat.mod_upper_bound. lia.
+    - rewrite Hlog, Htr. reflexivity.
     - rewrite Hlog. cbn [app]. exact Hlen.
   Qed.
 End Statements2D.
